@@ -567,7 +567,7 @@ Lemma run_op_invariant (P : state -> Prop) sc m :
     /\ Forall (fun s => wf_state sc s = true /\ P s) (snd r).
 Proof.
   intros WF Hreset Hstep o e pool Ho Hwf HP Hpool. cbv zeta.
-  destruct o as [|x k|i x k|i|]; unfold run_op.
+  destruct o as [|x k|i x k|i| |]; unfold run_op.
   - (* reset *)
     cbn [fst snd env_reset e_state].
     assert (W : wf_state sc (net_reset sc (e_state e)) = true) by (apply reset_wf; auto).
@@ -593,6 +593,11 @@ Proof.
     constructor; [|constructor]. split; [apply next_wf; auto | apply Hstep; auto].
   - destruct (nth_error pool i); cbn [fst snd]; auto.
   - destruct (flat_actions m); cbn [fst snd]; auto.
+  - (* generate_initial_state: the environment is untouched, the pool gains the initial state *)
+    cbn [fst snd]. split; [exact Hwf|]. split; [exact HP|].
+    apply Forall_app. split; auto.
+    constructor; [|constructor]. split; [apply wf_initial_state|].
+    rewrite <- (C04_reset_is_init_proof sc (e_state e) WF Hwf). apply Hreset; auto.
 Qed.
 
 Lemma run_ops_invariant :
